@@ -98,6 +98,11 @@ class Scenario:
         self.ops.append('C %d' % idev)
         self.pend_until = self.t + CLAIM_MS + 1
 
+    def X(self):
+        # Restart(): every device claims its address again; the heartbeat schedule stays where it is
+        self.ops.append('X')
+        self.pend_until = self.t + CLAIM_MS + 1
+
     def H(self, iv, off, idev=None):
         if iv == KEEP and off == 0xffff:
             self.ops.append('H %d %d' % (iv, off) + ('' if idev is None else ' %d' % idev))
@@ -238,10 +243,16 @@ def ep_claim(r, s):
         s.T(max(0, g - r.choice([0, 1, 5, 100, 240, 251, 300]) - s.t))
         if r.random() < 0.3:
             s.P()
-    s.C(i)
+    if r.random() < 0.3:
+        s.X()                    # the application's Restart() instead of one device's claim (seed C12-22)
+    else:
+        s.C(i)
     for _ in range(r.randint(1, 5)):
         s.TP(r.choice([0, 1, 5, 50, 100, 124, 125, 126, 200, 248, 249, 250, 251, 252, 300]))
     s.TP(r.choice([260, 300, 1000, per or 1000]))
+    if per and en and r.random() < 0.5:
+        for _ in range(3):
+            s.TP(per)            # ... and the schedule afterwards: the same grid as before
 
 
 def ep_disable(r, s):
@@ -413,7 +424,7 @@ def _judge(cfg, ops, per_op, sync0, sent_later):
         pf = (cid >> 16) & 0xff
         pgn = (cid >> 8) & 0x3ff00 if pf < 240 else (cid >> 8) & 0x3ffff
         return pgn not in (59392, 59904, 60928, 60160, 60416, 65240, 126208)
-    full = all((not o) or o[0] in ('T', 'P', 'H', 'C') or (o[0] == 'Q' and len(o) >= 3 and o[1] in ('hb', 'hd')) or bystander(o) for o in ops)
+    full = all((not o) or o[0] in ('T', 'P', 'H', 'C', 'X') or (o[0] == 'Q' and len(o) >= 3 and o[1] in ('hb', 'hd')) or bystander(o) for o in ops)
     last_poll = None
 
     def do_open(ts):
@@ -519,6 +530,9 @@ def _judge(cfg, ops, per_op, sync0, sent_later):
         if name != 'P':
             if hbs and full:
                 return k, 'schedule-early:op %d (%s) is not a poll but sent heartbeat(s)' % (k, ' '.join(o))
+        if name == 'X' and sync is not None and active:
+            for d in devs:
+                d.claim = t + CLAIM_MS
         if name == 'C' and sync is not None and active and len(o) > 1:
             i = int(o[1])
             if 0 <= i < ndev:
